@@ -310,6 +310,12 @@ func evaluateOperation(operator string, left, right interface{}) (interface{}, e
 				return float64(len(leftVal)), nil
 			}
 			return nil, fmt.Errorf("invalid operation on array: %s", rightIdent)
+		case string:
+			rightIdent, ok := right.(string)
+			if ok && rightIdent == "length" {
+				return float64(len(leftVal)), nil
+			}
+			return nil, fmt.Errorf("invalid operation on string: %v", right)
 		default:
 			return nil, fmt.Errorf("left operand of '.' must be a map or array, got %T", left)
 		}
